@@ -31,12 +31,6 @@ package commands
 //@   at call commands.Print:1 assert len(corruptOids) == 0 && len(corruptPointers) == 0
 //@   at call os.Rename:1 assert !fsckDryRun && (srcFile == objpath(oid) || srcFile == devnull)
 
-//@ func (*github.com/git-lfs/git-lfs/v3/config.Configuration).Filesystem
-//@   assumed
-//@   props C13
-//@   modifies fresh
-//@   ensures result != nil
-
 // Terminal output and process exit helpers (assumed): printing changes no
 // program or file-system state; the exit helpers do not return.
 //@ func Print
